@@ -46,12 +46,64 @@ CAT = [
 ]
 
 
+from bibtexparser.middlewares.middleware import BlockMiddleware
+
+
+class CopyNop(BlockMiddleware):
+    """A user block middleware in copy mode that changes nothing: every block is copied and the library rebuilt."""
+
+    def __init__(self):
+        super().__init__(allow_inplace_modification=False)
+
+
+def check_wide(acc, tier):
+    """Entries of middling width: n = 1 .. 16 (thorough .. 40) distinct field keys, then key number i once more (at the
+    end, or right after its first occurrence), for every i; a clean entry with the same entry key follows. The first is a
+    duplicate-field block naming exactly that key and keeping all n + 1 fields; its key is not live, so the second is."""
+    top = 16 if tier == "quick" else 40
+    for n in range(1, top + 1):
+        keys = [f"f{i:02d}" for i in range(n)]
+        for i in range(n):
+            for where in ("end", "next"):
+                fields = [(k, "{%d}" % j) for j, k in enumerate(keys)]
+                rep = (keys[i], "{again}")
+                fields = fields + [rep] if where == "end" else fields[: i + 1] + [rep] + fields[i + 1 :]
+                text = "@a{w, " + ", ".join(f"{k} = {v}" for k, v in fields) + "}\n@b{w, z = {1}}"
+                case = {"wide": n, "repeated": i, "where": where}
+                for stack in ("default", "none"):
+                    acc.trace()
+                    acc.case(nontrivial_key=("wide", n, i, where, stack))
+                    try:
+                        lib = bibtexparser.parse_string(text) if stack == "default" else bibtexparser.parse_string(text, parse_stack=[])
+                    except Exception as e:
+                        acc.exception(e, case, "parse_string", size=n)
+                        continue
+                    b = lib.blocks
+                    acc.step(("wide", n, i, where), stack, tuple(type(x).__name__ for x in b))
+                    inner = b[0].ignore_error_block if len(b) == 2 and isinstance(b[0], DuplicateFieldKeyBlock) else None
+                    ok = (
+                        inner is not None
+                        and [f.key for f in inner.fields] == [k for k, _ in fields]
+                        and set(b[0].duplicate_keys) == {keys[i]}
+                        and type(b[1]) is Entry
+                        and b[1].entry_type == "b"
+                        and list(lib.entries_dict) == ["w"]
+                        and lib.entries_dict["w"] is b[1]
+                    )
+                    if not ok:
+                        acc.violation(
+                            {"oracle": "repeated_field_key_is_failed_block", "stack": stack, "width": "middling"},
+                            {"case": case, "text": text, "observed": [type(x).__name__ for x in b], "expected": ["DuplicateFieldKeyBlock", "Entry"]},
+                            size=n,
+                        )
+
+
 def bounds(tier):
     return {"catalogue": [c[-1] for c in CAT], "max_blocks": 4 if tier == "quick" else 5, "stacks": ["default", "parse_stack=[]"], "separators": ["\\n", " (one line)"]}
 
 
 def shards(tier):
-    return [("first", i, j) for i in range(len(CAT)) for j in range(len(CAT))] + [("short", 0)] + [("two_docs", k) for k in range(32)]
+    return [("first", i, j) for i in range(len(CAT)) for j in range(len(CAT))] + [("short", 0), ("wide", 0)] + [("two_docs", k) for k in range(32)]
 
 
 def strip1(v):
@@ -70,10 +122,10 @@ def check_doc(ids, sep, acc, case=None):
     skeys = [CAT[i][1] for i in ids if CAT[i][0] == "string"]
     collision = len(ekeys) != len(set(ekeys)) or len(skeys) != len(set(skeys)) or "dupfield" in kinds
     acc.case(sample=lambda: {"text": text}, nontrivial_key=text if collision else None)
-    for stack in ("default", "none"):
+    for stack in ("default", "none", "copy"):
         acc.trace()
         try:
-            lib = bibtexparser.parse_string(text) if stack == "default" else bibtexparser.parse_string(text, parse_stack=[])
+            lib = bibtexparser.parse_string(text) if stack == "default" else bibtexparser.parse_string(text, parse_stack=[] if stack == "none" else [CopyNop()])
         except Exception as e:
             acc.exception(e, case, "parse_string", size=len(ids))
             continue
@@ -225,6 +277,8 @@ def check_two_docs(acc, stripe=None):
 def run_shard(shard, tier, acc):
     if shard[0] == "two_docs":
         return check_two_docs(acc, shard[1])
+    if shard[0] == "wide":
+        return check_wide(acc, tier)
     maxb = 4 if tier == "quick" else 5
     if shard[0] == "short":
         for n in (1,):
@@ -243,6 +297,8 @@ def run_shard(shard, tier, acc):
 def replay(case, acc):
     if "two_docs" in case:
         return check_two_docs(acc)
+    if "wide" in case:
+        return check_wide(acc, "quick" if case["wide"] <= 16 else "thorough")
     check_doc(tuple(case["ids"]), case["sep"], acc, case)
 
 
